@@ -27,6 +27,33 @@ fn reprint(text: &str) -> Option<String> {
     Some(t.to_string())
 }
 
+// operator trees with exactly the parentheses grammar.y needs (left-associative chains per family: * /  above  + -  above the
+// non-associative comparisons); anything else is rendered fully parenthesised.  gram's own Display keeps more parentheses
+// than this (it groups a left operand that contains a grouped operand), so this rendering is not reachable through reprint.
+fn chain_unparse(t: &Value) -> String {
+    fn prec(op: &str) -> u8 {
+        match op { "prod" | "quot" => 3, "sum" | "diff" => 2, _ => 1 }
+    }
+    fn sym(op: &str) -> &'static str {
+        match op { "prod" => "*", "quot" => "/", "sum" => "+", "diff" => "-", "lt" => "<", "le" => "<=", "eq" => "==", "gt" => ">", "ge" => ">=", _ => "?" }
+    }
+    fn go(t: &Value, need: u8) -> String {
+        match t["k"].as_str().unwrap_or("") {
+            "bin" => {
+                let op = t["op"].as_str().unwrap_or("");
+                let p = prec(op);
+                // comparisons do not chain: both operands must bind tighter
+                let (l, r) = if p == 1 { (2, 2) } else { (p, p + 1) };
+                let s = format!("{} {} {}", go(&t["a"], l), sym(op), go(&t["b"], r));
+                if p < need { format!("({s})") } else { s }
+            }
+            "lit" if t["v"]["s"].as_i64().unwrap_or(0) >= 0 => c_pipe::unparse(t, 0),
+            _ => { let s = c_pipe::unparse(t, 0); if s.starts_with('(') { s } else { format!("({s})") } }
+        }
+    }
+    go(t, 0)
+}
+
 // wrap integer literals / constant keywords of a program text in parentheses: the `which`-th atom only, or (None) all of them
 fn paren_atoms(text: &str, which: Option<usize>) -> (String, usize) {
     let src: &'static str = tj::leak(text);
@@ -78,6 +105,9 @@ pub fn case(line: &str) -> String {
     let mut n = 0;
     let check = |rule: &str, text: &str, bad: &mut Vec<Value>| {
         let o = outcome(text, fuel);
+        if std::env::var("GV_DEBUG").is_ok() {
+            eprintln!("{rule}: {text} -> {o}");
+        }
         if !same(&base, &o) {
             bad.push(json!({"rule": rule, "original": base_text, "rewritten": text, "original_outcome": base, "rewritten_outcome": o}));
         }
@@ -92,6 +122,18 @@ pub fn case(line: &str) -> String {
         n += 1;
         // ... and redundant parentheses added around atoms of the minimal rendering (literals and constant keywords are
         // expressions wherever they occur, so `2` may always be written `(2)`)
+        let (all, natoms) = paren_atoms(&p, None);
+        check("add-redundant-parentheses", &all, &mut bad);
+        n += 1;
+        for w in 0..natoms.min(12) {
+            check("add-redundant-parentheses", &paren_atoms(&p, Some(w)).0, &mut bad);
+            n += 1;
+        }
+    }
+    if rec["t"]["k"] == "bin" {
+        let p = chain_unparse(&rec["t"]);
+        check("remove-redundant-parentheses (grammar-minimal)", &p, &mut bad);
+        n += 1;
         let (all, natoms) = paren_atoms(&p, None);
         check("add-redundant-parentheses", &all, &mut bad);
         n += 1;
